@@ -14,6 +14,6 @@ func init() {
 func runC05(c *core.Check) {
 	c.Rule = "every MC_E1 AST x every non-empty subset of its free scope variables (<=3) x abstraction kind (typed unknown, dynamic, not-null, string prefix, number bounds, length bounds) x concrete instantiations (the scope value and up to 4 same-typed alternates inside the abstraction): abstract result must approximate each concrete result (type, known parts, refinements via Range().Includes); plus: error-free evaluation in the known scope is wholly known. Non-trivial = distinct source with at least one error-free abstract/concrete pair"
 	c.Assumes = []string{"pairs where either evaluation reports an error are outside the statement and skipped (counted)", "marks are stripped before comparison"}
-	streamTLC(c, core.TLCRun{Module: "MC_E1", Consts: e1Consts(c), Timeout: minutes(25), KeepVars: []string{"e", "fv", "last"}},
+	streamTLC(c, core.TLCRun{Module: "MC_E1", Parts: 4, Consts: e1Consts(c), Timeout: minutes(25), KeepVars: []string{"e", "fv", "last"}},
 		func(st core.State) { c05.Handle(c, st) })
 }
